@@ -27,7 +27,7 @@ def sh(cmd, cwd=None, timeout=1800, env=None):
 
 def collect():
     wave3 = {"C01", "C02", "C03", "C04", "C05", "C06", "C08", "C09", "C11", "C17"}    # properties that had a third wave
-    for wave, pat in ((0, "/tmp/mut-c*/out/M*"), (2, "/tmp/mut3-c*/out/M*"), (4, "/tmp/mut4-c*/out/M*"), (6, "/tmp/mut5-c*/out/M*"), (8, "/tmp/mut6-c*/out/M*")):
+    for wave, pat in ((0, "/tmp/mut-c*/out/M*"), (2, "/tmp/mut3-c*/out/M*"), (4, "/tmp/mut4-c*/out/M*"), (6, "/tmp/mut5-c*/out/M*"), (8, "/tmp/mut6-c*/out/M*"), (10, "/tmp/mut7-c*/out/M*")):
         for d in sorted(glob.glob(pat)):
             if not os.path.exists(os.path.join(d, "patch.diff")) or not os.path.exists(os.path.join(d, "meta.json")):
                 continue
